@@ -18,7 +18,17 @@ Require Import PV.Binder.Kind PV.Binder.Sig PV.Binder.Bind PV.Binder.PyBind.
 Require PV.Proofs.BinderStar.
 Require Import PV.Proofs.CallMain PV.Proofs.CallAtoms PV.Proofs.SolveAtoms PV.Proofs.CallCore.
 Require PV.Core.Obj PV.Core.Val PV.Core.Cls PV.Core.Member PV.Core.CanAssignK PV.Proofs.C03Main.
-Require Import PV.Gen.Solve PV.Gen.SolveAtoms PV.Gen.CallObjs.
+Require Import PV.Gen.Solve PV.Gen.SolveAtoms PV.Gen.CallObjs PV.Gen.CheckCall.
+
+(* generated obligation: the control structure of Signature.check_call_with_bound_args and
+   _check_param_type_compatibility that Call/Model.v mirrors, extracted from the AST on every run
+   (typevar pass guarded, first, over typevars_of_params minus the return key, unsubstituted, a
+   rejected argument returns the default at once; bounds unified then resolved, errors return
+   the default; argument pass over every bound argument, substituted, no early return; the
+   default is exempt by identity; unannotated parameters accept) *)
+Theorem C06_check_call_structure : check_call_structure_ok = true.
+Proof. reflexivity. Qed.
+Print Assumptions C06_check_call_structure.
 
 (* C05 composed: "a call that binds" — for every valid signature and every concrete
    call, the model reports a binding failure exactly when CPython cannot bind the call *)
